@@ -600,8 +600,13 @@ func NewPackage(pkgPath string, pkg *ast.Package, conf *Config) (p *gogen.Packag
 	}
 
 	gofiles := make([]*ast.File, 0, len(pkg.GoFiles))
-	for _, gof := range pkg.GoFiles {
-		f := fromgo.ASTFile(gof, 0)
+	gopaths := make([]string, 0, len(pkg.GoFiles))
+	for fpath := range pkg.GoFiles {
+		gopaths = append(gopaths, fpath)
+	}
+	sort.Strings(gopaths) // deterministic order (pkg.GoFiles is a map)
+	for _, fpath := range gopaths {
+		f := fromgo.ASTFile(pkg.GoFiles[fpath], 0)
 		gofiles = append(gofiles, f)
 		ctx := &blockCtx{
 			pkg: p, pkgCtx: ctx, cb: p.CB(), relBaseDir: relBaseDir,
